@@ -206,14 +206,63 @@ def fault_selector(ev: dict):
     raise ValueError(f"unknown fault {f}")
 
 
+class StreamEnd:
+    """The peer side of a real TCPTransport: a hand-fed StreamReader and a recording writer."""
+
+    def __init__(self, loop) -> None:
+        from aiomysensors.transport.tcp import TCPTransport
+
+        self.transport = TCPTransport("host.invalid")
+        self.reader = asyncio.StreamReader(limit=2 ** 16, loop=loop)
+        self.out = bytearray()
+        end = self
+
+        class Writer:
+            def write(self, data):
+                end.out.extend(data)
+
+            async def drain(self):
+                return None
+
+            def close(self):
+                return None
+
+            async def wait_closed(self):
+                return None
+
+        self.transport.reader = self.reader
+        self.transport.writer = Writer()
+        self.taken = 0
+
+    def new_writes(self) -> list[dict]:
+        data = bytes(self.out[self.taken:])
+        self.taken = len(self.out)
+        recs = []
+        for part in data.split(b"\n")[:-1] if data.endswith(b"\n") else data.split(b"\n"):
+            try:
+                rec = parse_write(part.decode("utf-8") + "\n")
+            except UnicodeDecodeError:
+                rec = parse_write(None)
+            rec["ids"] = []
+            rec["ok"] = True
+            recs.append(rec)
+        return recs
+
+
 class Run:
     """One execution of the real gateway."""
 
     def __init__(self, init: dict) -> None:
         self.loop = asyncio.new_event_loop()
-        self.transport = FakeTransport()
+        self.stream = None
+        if init.get("stream"):
+            self.stream = StreamEnd(self.loop)
+            self.transport = self.stream.transport
+        else:
+            self.transport = FakeTransport()
         self.gateway = Gateway(self.transport, Config(metric=init.get("metric", True)))
-        self.transport.gateway = self.gateway
+        if self.stream is None:
+            self.transport.gateway = self.gateway
         build_registry(self.gateway, init.get("nodes", []))
         if init.get("ver", "none") != "none":
             self.gateway.protocol_version = init["ver"]
@@ -264,11 +313,22 @@ class Run:
             "fault": (ev.get("fault") or "").split(":")[0],
         }
         rec["pre"] = proj(gw)
-        tr.writes = []
-        tr.fail_if = fault_selector(ev)
+        if self.stream is None:
+            tr.writes = []
+            tr.fail_if = fault_selector(ev)
         t0 = time.time()
         kind = ev["k"]
-        if kind in ("recv", "recvbad"):
+        if kind in ("recv", "recvbad", "recvundec") and self.stream is not None:
+            # the line travels as bytes through the real stream transport
+            raw = bytes(ev["raw"]) if "raw" in ev else (ev["line"] if kind == "recvbad" else line_of(ev)).encode("utf-8")
+            self.stream.reader.feed_data(raw)
+            if self.gen is None:
+                self.gen = gw.listen()
+            val, err = self._await(self.gen.__anext__())
+            if err is not None:
+                self.gen = None
+            out = self._outcome(val, err, yielded=True)
+        elif kind in ("recv", "recvbad"):
             tr.lines.append(ev["line"] if kind == "recvbad" else line_of(ev))
             if self.gen is None:
                 self.gen = gw.listen()
@@ -294,9 +354,13 @@ class Run:
         else:
             raise ValueError(kind)
         t1 = time.time()
-        tr.fail_if = None
+        if self.stream is None:
+            tr.fail_if = None
+            writes = tr.writes
+        else:
+            writes = self.stream.new_writes()
         rec["out"] = out
-        rec["wr"] = [self._time_token(w, t0, t1) for w in tr.writes]
+        rec["wr"] = [self._time_token(w, t0, t1) for w in writes]
         rec["post"] = proj(gw)
         rec["hint"] = self._hint(rec)
         self.events.append(rec)
